@@ -152,6 +152,11 @@ class SpecGen:
             if size >= 1 and t[1][0] == "num" and self.opts.get("layout_numpy_2d", True) and r.random() < 0.25:
                 # the other encoding of "n lists of exactly `size` numbers": a two-dimensional NumpyArray
                 return self.numpy2d(t[1][1], n, size)
+            if size >= 1 and t[1][0] == "reglist" and t[1][2] >= 1 and t[1][1][0] == "num" and \
+                    self.opts.get("layout_numpy_2d", True) and r.random() < 0.3:
+                # ... and of "n lists of `size` lists of exactly k numbers": a three-dimensional NumpyArray, mostly
+                # a view (x[::2], x[:, :, ::2], x[1:]) of a larger block
+                return self.numpy_nd(t[1][1][1], [n, size, t[1][2]])
             extra = r.randrange(size) if size > 1 else 0      # fewer than one more row
             content = self.array(t[1], n * size + extra)
             return {"k": "regular", "size": size, "zeros_length": n if size == 0 else 0, "n": n, "content": content}
@@ -211,6 +216,28 @@ class SpecGen:
         unit = "s" if dt in ("datetime64", "timedelta64") else ""
         return {"k": "numpy", "dtype": dt, "buf": pack_items(dt, items).hex(), "shape": [n, size],
                 "strides": [row_stride * isz, item_stride * isz], "byteoffset": pad * isz, "unit": unit}
+
+    def numpy_nd(self, dt, shape):
+        r = self.r
+        isz = DTYPES[dt][2]
+        nd = len(shape)
+        strides = [0] * nd                                   # in items
+        cur = r.choice([1, 1, 1, 2])
+        for d in reversed(range(nd)):
+            if d == nd - 1:
+                strides[d] = cur
+            elif d == 0:
+                strides[d] = cur * r.choice([1, 1, 2, 2, 3]) + r.choice([0, 0, 0, 1])    # x[::2] of a longer array
+            else:
+                strides[d] = cur + r.choice([0, 0, 0, 1, 3])
+            cur = strides[d] * max(shape[d], 1)
+        pad = r.choice([0, 0, 1, 2])
+        span = (sum((shape[d] - 1) * strides[d] for d in range(nd)) + 1) if all(x > 0 for x in shape) else 0
+        total = pad + span + r.choice([0, 1])
+        items = [rand_scalar(r, dt) for _ in range(total)]
+        unit = "s" if dt in ("datetime64", "timedelta64") else ""
+        return {"k": "numpy", "dtype": dt, "buf": pack_items(dt, items).hex(), "shape": list(shape),
+                "strides": [x * isz for x in strides], "byteoffset": pad * isz, "unit": unit}
 
     def listlike(self, inner, n, param=None):
         r = self.r
@@ -333,12 +360,12 @@ def value_of(spec):
         dt = spec["dtype"]
         code, isz = DTYPES[dt][1], DTYPES[dt][2]
         buf = bytes.fromhex(spec["buf"])
-        if len(spec["shape"]) == 2:
+        if len(spec["shape"]) >= 2:
             rows = []
             for i in range(spec["shape"][0]):
                 row = dict(spec)
-                row["shape"] = [spec["shape"][1]]
-                row["strides"] = [spec["strides"][1]]
+                row["shape"] = spec["shape"][1:]
+                row["strides"] = spec["strides"][1:]
                 row["byteoffset"] = spec["byteoffset"] + i * spec["strides"][0]
                 rows.append(value_of(row))
             return rows
@@ -672,12 +699,55 @@ def swapped_fields_variant(spec):
     return None
 
 
+def mask_flip_variant(spec, r):
+    """the same values with the first byte-masked node turned into a bit-masked one of the *opposite* valid_when (or the
+    other way round): Form::equal lets the two classes pass for each other only when valid_when agrees."""
+    d = strip_virtuals(spec)
+
+    def walk(s):
+        if s["k"] in ("bytemasked", "bitmasked"):
+            n = s["n"]
+            if s["k"] == "bytemasked":
+                m = idx_view(s["mask"], n)
+                valid = [(m[i] != 0) == s["valid_when"] for i in range(n)]
+            else:
+                by = idx_view(s["mask"], (n + 7) // 8)
+                valid = []
+                for i in range(n):
+                    bit = (by[i // 8] >> (i % 8)) & 1 if s["lsb"] else (by[i // 8] >> (7 - i % 8)) & 1
+                    valid.append((bit != 0) == s["valid_when"])
+            vw = not s["valid_when"]
+            if s["k"] == "bytemasked":
+                nbytes = (n + 7) // 8
+                by = [0] * nbytes
+                for i in range(n):
+                    if valid[i] == vw:
+                        by[i // 8] |= 1 << (i % 8)
+                new = {"k": "bitmasked", "mask": {"d": by, "off": 0, "f": "u8"}, "valid_when": vw, "lsb": True, "n": n,
+                       "content": s["content"], "mask_bytes": nbytes}
+            else:
+                new = {"k": "bytemasked", "mask": {"d": [1 if valid[i] == vw else 0 for i in range(n)], "off": 0, "f": "i8"},
+                       "valid_when": vw, "n": n, "content": s["content"]}
+            s.clear()
+            s.update(new)
+            return True
+        for c in ([s["content"]] if "content" in s else s.get("contents", [])):
+            if walk(c):
+                return True
+        return False
+    return d if walk(d) else None
+
+
 def wrong_form_variant(spec, r=None):
     """the same tree with the first numeric leaf reinterpreted as another primitive type of the same size: an array
     of the right length whose Form differs from the declared one. None when the tree has no such leaf. With a PRNG:
     sometimes the names of two record fields of different type are exchanged instead."""
     if r is not None and r.random() < 0.4:
         d = swapped_fields_variant(spec)
+        if d is not None:
+            return d
+    if r is not None and r.random() < 0.25:
+        d = mask_flip_variant(spec, r)
         if d is not None:
             return d
     if r is not None and r.random() < 0.25:
@@ -709,7 +779,7 @@ def wrong_form_variant(spec, r=None):
     return d if walk(d) else None
 
 
-def insert_virtuals(r, spec, nmax, declare_form, declare_length, prefix="k", force_root=False):
+def insert_virtuals(r, spec, nmax, declare_form, declare_length, prefix="k", force_root=False, double_below_option=False):
     """returns a copy of spec with up to nmax VirtualArray nodes inserted (never directly under a string list: the
     validity rules require a NumpyArray there). Keys are unique."""
     import copy
@@ -727,6 +797,18 @@ def insert_virtuals(r, spec, nmax, declare_form, declare_length, prefix="k", for
     r.shuffle(sites)
     if force_root:
         sites.sort(key=lambda ps: ps[0] is not None)      # the whole array first (stable: the rest keeps its order)
+    forced_double = None
+    if double_below_option:
+        # the content of the first option node comes first and is wrapped twice
+        for ps in sites:
+            p = ps[0]
+            if p is not None and ps[1] == "content" and \
+                    (p["k"] in ("bytemasked", "bitmasked", "unmasked") or (p["k"] == "indexed" and p.get("option"))):
+                forced_double = ps
+                break
+        if forced_double is not None:
+            sites.remove(forced_double)
+            sites.insert(0, forced_double)
     chosen = sites[:r.randint(1, max(1, nmax))]
     count = [0]
 
@@ -747,14 +829,23 @@ def insert_virtuals(r, spec, nmax, declare_form, declare_length, prefix="k", for
                 v["respelled"] = rs
         return v
     root = d
+
+    def wrap_inner(s, force=False):
+        v = wrap(s)
+        if r.random() < 0.12 or force:
+            # virtual of virtual below another node too (the code that looks through VirtualArrays has to loop)
+            v = wrap(v)
+            v["declare_form"] = False
+            v["wrong"] = None
+        return v
     # wrap deepest first so that parents stay reachable
     for parent, slot in chosen:
         if parent is None:
             continue
         if slot == "content":
-            parent["content"] = wrap(parent["content"])
+            parent["content"] = wrap_inner(parent["content"], forced_double is not None and (parent, slot) == forced_double)
         else:
-            parent["contents"][slot[1]] = wrap(parent["contents"][slot[1]])
+            parent["contents"][slot[1]] = wrap_inner(parent["contents"][slot[1]])
     if any(p is None for p, _ in chosen):
         root = wrap(d)
         if r.random() < 0.2:
